@@ -254,9 +254,35 @@ def batch(sim_cls, tier: str, base_seed: int, runs: int = None, workers: int = N
     reported = []
     pending_notes = []
     fresh_tried, fresh_seen = [0], set()
+    history_dependent = []
+    examples = collections.defaultdict(list)
+
+    def _fresh_path(sig):
+        """runs depend on their predecessors in the process (the code under test keeps process-wide state): a verdict needs a run that
+        violates the property when executed ALONE in a fresh interpreter; it is then minimised with one fresh interpreter per candidate"""
+        if fresh_tried[0] >= 24 or len(reported) >= 2:
+            return False
+        for rr in examples[tuple(sig)][:6]:
+            if rr["seed"] in fresh_seen:
+                continue
+            fresh_seen.add(rr["seed"])
+            fresh_tried[0] += 1
+            got1 = _fresh_seed_run(prop, rr["seed"], tier)
+            if not got1 or not got1.get("violation"):
+                continue
+            fsig, fdetail = got1["violation"]["signature"], got1["violation"]["detail"]
+            if match_known(known, _V(fsig)):
+                continue
+            got = _fresh_minimise(prop, rr["seed"], got1["cfg"], got1["events"], fsig, fdetail)
+            if got:
+                reported.append({"signature": fsig, "seed": rr["seed"], "replay": got[0], "events": len(got[1]),
+                                 "events_before": len(got1["events"]), "detail": fdetail[:600] +
+                                 "\n(the code under test keeps state between the runs of one process; judged and minimised in fresh interpreters)"})
+                return True
+        pending_notes.append("signature %r: no run violated the property when executed alone in a fresh interpreter" % (list(sig),))
+        return False
     if viol and not harness_errors:
         by_sig = collections.OrderedDict()
-        examples = collections.defaultdict(list)
         for r in viol:
             by_sig.setdefault(tuple(r["violation"]["signature"]), r)
             examples[tuple(r["violation"]["signature"])].append(r)
@@ -264,36 +290,14 @@ def batch(sim_cls, tier: str, base_seed: int, runs: int = None, workers: int = N
             sig = list(sig)
             try:
                 if det_mismatch:
-                    # runs depend on their predecessors in the process (the code under test keeps process-wide state): a verdict needs a
-                    # run that violates the property when executed ALONE in a fresh interpreter; it is then minimised in fresh interpreters
-                    if fresh_tried[0] >= 24 or len(reported) >= 2:
-                        continue
-                    done = False
-                    for rr in examples[tuple(sig)][:6]:
-                        if rr["seed"] in fresh_seen:
-                            continue
-                        fresh_seen.add(rr["seed"])
-                        fresh_tried[0] += 1
-                        got1 = _fresh_seed_run(prop, rr["seed"], tier)
-                        if not got1 or not got1.get("violation"):
-                            continue
-                        fsig, fdetail = got1["violation"]["signature"], got1["violation"]["detail"]
-                        if match_known(known, _V(fsig)):
-                            continue
-                        got = _fresh_minimise(prop, rr["seed"], got1["cfg"], got1["events"], fsig, fdetail)
-                        if got:
-                            reported.append({"signature": fsig, "seed": rr["seed"], "replay": got[0], "events": len(got[1]),
-                                             "events_before": len(got1["events"]), "detail": fdetail[:600] +
-                                             "\n(the code under test keeps state between the runs of one process; judged and minimised in fresh interpreters)"})
-                            done = True
-                            break
-                    if not done:
-                        pending_notes.append("signature %r: no run violated the property when executed alone in a fresh interpreter" % (sig,))
+                    _fresh_path(sig)
                     continue
                 cfg = make_cfg(sim_cls, r["seed"], tier)
                 full = execute(sim_cls, cfg, None)
                 if full.violation is None or full.violation.sig != sig:
-                    (pending_notes if det_mismatch else harness_errors).append("violation of seed %d did not reproduce on regeneration" % r["seed"])
+                    # the run behaved differently when executed again in this process: history-dependent code under test
+                    history_dependent.append(sig)
+                    pending_notes.append("violation of seed %d did not reproduce on regeneration" % r["seed"])
                     continue
                 mcfg, mevents, execs = minimise(sim_cls, cfg, full.events, sig)
                 final = execute(sim_cls, mcfg, mevents)
@@ -301,7 +305,8 @@ def batch(sim_cls, tier: str, base_seed: int, runs: int = None, workers: int = N
                                     final.violation.detail if final.violation else "", execs)
                 ok, out = _fresh_replay_ok(prop, path)
                 if not ok:
-                    (pending_notes if det_mismatch else harness_errors).append("minimised replay %s did not reproduce in a fresh interpreter:\n%s" % (path, out))
+                    history_dependent.append(sig)
+                    pending_notes.append("minimised replay %s did not reproduce in a fresh interpreter:\n%s" % (path, out))
                     continue
                 reported.append({"signature": sig, "seed": r["seed"], "replay": path, "events": len(mevents),
                                  "events_before": len(full.events), "detail": (final.violation.detail or "")[:600]})
@@ -309,9 +314,13 @@ def batch(sim_cls, tier: str, base_seed: int, runs: int = None, workers: int = N
                 harness_errors.append("minimisation failed for seed %d: %s" % (
                     r["seed"], "".join(traceback.format_exception(type(e), e, e.__traceback__))[-2000:]))
 
-    if det_mismatch and viol and not reported:
+    if history_dependent and not harness_errors:
+        for sig in history_dependent:
+            _fresh_path(sig)
+    if (det_mismatch or history_dependent) and viol and not reported:
         # nothing reproducible came out of it: no verdict
-        harness_errors.append(nondet_note)
+        if nondet_note:
+            harness_errors.append(nondet_note)
         harness_errors.extend(pending_notes)
     wall = time.time() - t_start
     n = len(good)
